@@ -485,9 +485,11 @@ def callPy (cfg : Cfg) : Nat → Nat → List Val → List (String × Val) → B
           let σ1 := { σ with locals := frame, depth := σ.depth + 1 }
           let (sg, σ2) ← execPL cfg n f.body σ1
           let first : Option Val := match f.params with
-            | (p, _) :: _ => lookupP (p, []) σ2.locals
+            | (p, _) :: _ => σ2.getVar (p, [])
             | [] => Option.none
-          let σ3 := { σ2 with locals := σ.locals, depth := σ.depth }
+          -- back in the caller's frame; a function body cannot rebind a module variable (no `global` statement in
+          -- any template: `setVar` at depth > 0 writes the frame), which restoring `globals` states once, here
+          let σ3 := { σ2 with locals := σ.locals, depth := σ.depth, globals := σ.globals }
           match sg with
           | .ret v => .ok (v, first, σ3)
           | .normal => .ok (.none, first, σ3)
